@@ -164,7 +164,10 @@ func (x *X) Sim(o SimOpts, main func()) *dsim.Info {
 			}
 		}
 	case "panic":
-		if !o.PanicOK {
+		if strings.Contains(info.Detail, "dsim: tape runaway") {
+			// a limit of the machinery, not a property of the code under test
+			x.Failf("harness", ph+"tape runaway", "%s", info.Detail)
+		} else if !o.PanicOK {
 			if x.Failf("panic", ph+"panic in "+info.PanicTop, "%s", info.Detail) {
 				x.trace = info.Trace
 			}
